@@ -1239,6 +1239,39 @@ func (g *G) genBigAllowanceCase(p *Profile, id string) *Case {
 	return c
 }
 
+// genMinFreshFailureCase: a response still inside its own lifetime is validated because the request asks for min-fresh; the
+// validation fails and stale-if-error (on the response or the request) covers the failure: the stored response comes back
+// after an origin contact — labelled as such, with the age at that instant
+func (g *G) genMinFreshFailureCase(p *Profile, id string) *Case {
+	c := &Case{ID: id, Stream: "M", SWRTimeout: p.SWRTimeouts[g.intn(len(p.SWRTimeouts))]}
+	res := g.intn(2)
+	storedSIE := g.chance(0.6)
+	cc := g.pick("max-age=60", "max-age=120", "max-age=30")
+	if storedSIE {
+		cc += ", stale-if-error=" + g.pick("600", "3600")
+	}
+	first := tRep(0, 200, cc, Hdr{"ETag", []string{`"v1"`}})
+	rcc := "min-fresh=" + g.pick("100", "600", "59", "3600")
+	if !storedSIE || g.chance(0.3) {
+		rcc += ", stale-if-error=" + g.pick("600", "3600")
+	}
+	h := []Hdr{{"Cache-Control", []string{rcc}}}
+	c.Reqs = []Req{{Gap: time.Second, Method: "GET", URL: g.urlFor(res, false)},
+		{Gap: g.pickD(2*time.Second, 5*time.Second, 20*time.Second), Method: "GET", URL: g.urlFor(res, false), Hdrs: h},
+		{Gap: time.Second, Method: "GET", URL: g.urlFor(res, false)},
+		{Gap: g.pickD(time.Second, 3*time.Second), Method: "GET", URL: g.urlFor(res, false), Hdrs: h}}
+	c.Script = []ScriptEntry{{Delay: g.pickD(0, 400*time.Millisecond), Plain: first, Cond: first}}
+	for i := 1; i < 6; i++ {
+		r := tRep(i, g.pickI(500, 502, 503, 504, 503), g.pick("", "no-store", "max-age=5"))
+		e := ScriptEntry{Delay: g.pickD(0, 2*time.Second, 500*time.Millisecond), Plain: r, Cond: r}
+		if g.chance(0.25) {
+			e.Plain, e.Cond = Rep{Err: true}, Rep{Err: true}
+		}
+		c.Script = append(c.Script, e)
+	}
+	return c
+}
+
 func (g *G) genFor(p *Profile, id string, i int) *Case {
 	g.noVaryCC = p.Name == "spell"
 	switch {
@@ -1250,7 +1283,7 @@ func (g *G) genFor(p *Profile, id string, i int) *Case {
 		return g.genTwoMatchCase(p, id)
 	case p.Name == "vary" && i%20 == 7:
 		return g.genGluedVaryCase(p, id)
-	case p.Name == "vary" && i%20 == 13:
+	case p.Name == "vary" && i%10 == 3:
 		return g.genDelimitedVaryCase(p, id)
 	case (p.Name == "fresh" || p.Name == "age") && i%25 == 9:
 		return g.genSaturatedAgeCase(p, id)
@@ -1262,6 +1295,8 @@ func (g *G) genFor(p *Profile, id string, i int) *Case {
 		return g.genVaryCCCase(p, id)
 	case p.Name == "hit" && i%15 == 4:
 		return g.genBigAllowanceCase(p, id)
+	case (p.Name == "age" || p.Name == "sie") && i%25 == 14:
+		return g.genMinFreshFailureCase(p, id)
 	}
 	return g.genCase(p, id)
 }
